@@ -167,17 +167,12 @@ func checkC23(r *Run) {
 			size := "fold[acc=" + enc + "(local:*); (acc + " + item + ")]"
 			r.RequireStore("C23-R4", m.trunc, "items cut to [:index+1] where index advances in every continuing iteration", "$0."+m.field+" := $0."+m.field+"[:(fold[acc=-1; i] + 1)]")
 			nl := 0
-			for _, lp := range tff.loops {
-				for _, lt := range lp.Latches {
-					nl++
-					var fs []string
-					for _, a := range tff.Must(lt) {
-						fs = append(fs, a.S)
-					}
-					_, okl := matchAny([]string{"(" + size + " + " + item + ") <= ($1 - 4)"}, fs)
-					r.Check("C23-R4", m.trunc+": an iteration continues only if emptySize + kept items + this item <= max-4 (item size = "+m.elemSize+")", r.P.Pos(tff.condPos(lt)), okl, "latch facts: "+trunc(strings.Join(fs, " ; "), 300))
-					r.Check("C23-R4", m.trunc+": the loop ranges over all items", r.P.Pos(tff.condPos(lt)), tff.loopSpace(lp) == "i < len($0."+m.field+")", tff.loopSpace(lp))
-				}
+			for _, sl := range r.scopedLatches(tf) {
+				nl++
+				fs := sl.Facts
+				_, okl := matchAny([]string{"(" + size + " + " + item + ") <= ($1 - 4)"}, fs)
+				r.Check("C23-R4", m.trunc+": an iteration continues only if emptySize + kept items + this item <= max-4 (item size = "+m.elemSize+")", r.P.Pos(sl.FF.condPos(sl.Latch)), okl, "latch facts: "+trunc(strings.Join(fs, " ; "), 300))
+				r.Check("C23-R4", m.trunc+": the loop ranges over all items", r.P.Pos(sl.FF.condPos(sl.Latch)), sl.Space == "i < len($0."+m.field+")", sl.Space)
 			}
 			r.Check("C23-R4", m.trunc+": exactly one measuring loop", r.P.Pos(tf.Pos()), nl == 1, fmt.Sprint(nl))
 			arithObligationsFiltered(r, "C23-R4", m.trunc)
